@@ -74,6 +74,9 @@ GENES = [
     ("gN", "PLUS", [([(0, 24)], [(0, 24)], 0), ([(0, 12)], [(0, 12)], 0)], "protein_coding"),  # in-frame stop in isoform 1 -> pseudo
     # three isoforms, only the shortest CDS (GGT TAA GCG) has an in-frame stop; the longest CDS is clean -> the gene is pseudo
     ("gQ", "PLUS", [([(25, 49)], [(25, 49)], 0), ([(27, 47)], [(28, 40)], 0), ([(30, 45)], [(33, 42)], 0)], "protein_coding"),
+    # one exon whose CDS is written as adjacent blocks (a frame bookkeeping split inside the exon): one merged CDS interval
+    ("gR", "PLUS", [([(0, 12)], [(0, 6), (6, 12)], 0)], "protein_coding"),
+    ("gS", "MINUS", [([(24, 33)], [(24, 27), (27, 33)], 0)], "protein_coding"),
 ]
 
 
